@@ -48,6 +48,8 @@ def SnapOk (s : State) (seqs : List (BitVec 32)) (acc : List PoolSelect.Conn) : 
 structure InvL (s : State) : Prop where
   readOk : ∀ i seqs, s.run = .ubRead i seqs → seqs.length = i ∧ SnapOk s seqs []
   selOk : ∀ i seqs acc, s.run = .ubSel i seqs acc → acc.length = i ∧ SnapOk s seqs acc
+  selLe : ∀ i seqs acc, s.run = .ubSel i seqs acc → i ≤ s.heads.length
+  bestOk : ∀ c, s.best = some c → c < s.heads.length
   connOk : ∀ (j : Nat) (x : Setter), s.setters[j]? = some x → x.conn < s.heads.length
   sendLe : ∀ (j : Nat) (x : Setter), s.setters[j]? = some x → (x.pc = .sendLocked ∨ x.pc = .sendUnlocked) →
     x.head ≤ s.heads.getD x.conn 0
@@ -127,34 +129,69 @@ theorem invL_selOk {v s a s'} (h : InvL s) (hs : step v s a = some s') :
           | some x => simpa [hl] using hok.1 j x hq
         · rw [hl]; exact ofNat_toNat_le _
 
+theorem invL_selLe {v s a s'} (h : InvL s) (hs : step v s a = some s') :
+    ∀ i seqs acc, s'.run = .ubSel i seqs acc → i ≤ s'.heads.length := by
+  have hlen := heads_length hs
+  have selLe := h.selLe
+  cases a <;> step_cases hs <;> grind [State.setW, State.setS]
+
+theorem invL_bestOk {v s a s'} (h : InvL s) (hs : step v s a = some s') :
+    ∀ c, s'.best = some c → c < s'.heads.length := by
+  have hlen := heads_length hs
+  have bestOk := h.bestOk
+  have hso := h.selOk
+  have hsl := h.selLe
+  cases a with
+  | ubSet =>
+    simp only [step] at hs
+    split at hs
+    · rename_i i seqs acc hrun
+      have hk : ∀ c, PoolSelect.selectWith false s.strategy (PoolSelect.maxOfSeqs seqs) acc = some c →
+          c.id < s.heads.length := by
+        intro c hsel
+        obtain ⟨k, hk⟩ := List.mem_iff_getElem?.mp (selectWith_mem hsel)
+        have hid := ((hso i seqs acc hrun).2.2 k c hk).1
+        have hkl := (List.getElem?_eq_some_iff.mp hk).1
+        have := (hso i seqs acc hrun).1
+        have := hsl i seqs acc hrun
+        omega
+      split at hs
+      · split at hs
+        · cases hs; exact bestOk
+        · rename_i c hsel
+          split at hs <;> (cases hs; intro c' hc'; simp only [Option.some.injEq] at hc'; subst hc'; exact hk c hsel)
+      · cases hs
+    · cases hs
+  | _ => step_cases hs <;> grind [State.setW, State.setS]
+
 theorem invL_connOk {v s a s'} (h : InvL s) (hs : step v s a = some s') :
     ∀ (j : Nat) (x : Setter), s'.setters[j]? = some x → x.conn < s'.heads.length := by
-  obtain ⟨readOk, selOk, connOk, sendLe, updLe, wantLe, loopLe, putLe, logLe⟩ := h
+  obtain ⟨readOk, selOk, selLe, bestOk, connOk, sendLe, updLe, wantLe, loopLe, putLe, logLe⟩ := h
   cases a <;> step_cases hs <;> grind [State.setW, State.setS, RunPc.lockW, RunPc.lockR]
 
 theorem invL_sendLe {v s a s'} (h : InvL s) (hs : step v s a = some s') :
     ∀ (j : Nat) (x : Setter), s'.setters[j]? = some x → (x.pc = .sendLocked ∨ x.pc = .sendUnlocked) →
     x.head ≤ s'.heads.getD x.conn 0 := by
-  obtain ⟨readOk, selOk, connOk, sendLe, updLe, wantLe, loopLe, putLe, logLe⟩ := h
+  obtain ⟨readOk, selOk, selLe, bestOk, connOk, sendLe, updLe, wantLe, loopLe, putLe, logLe⟩ := h
   have hm := heads_mono hs
   cases a <;> step_cases hs <;> grind [State.setW, State.setS, RunPc.lockW, RunPc.lockR, getD_set_self]
 
 theorem invL_updLe {v s a s'} (h : InvL s) (hs : step v s a = some s') :
     ∀ e ∈ s'.upd, e.2 ≤ s'.heads.getD e.1 0 := by
-  obtain ⟨readOk, selOk, connOk, sendLe, updLe, wantLe, loopLe, putLe, logLe⟩ := h
+  obtain ⟨readOk, selOk, selLe, bestOk, connOk, sendLe, updLe, wantLe, loopLe, putLe, logLe⟩ := h
   have hm := heads_mono hs
   cases a <;> step_cases hs <;> grind [State.setW, State.setS, RunPc.lockW, RunPc.lockR]
 
 theorem invL_wantLe {v s a s'} (h : InvL s) (hs : step v s a = some s') :
     ∀ c h, (s'.run = .nWant c h ∨ s'.run = .nCheck c h) → h ≤ s'.heads.getD c 0 := by
-  obtain ⟨readOk, selOk, connOk, sendLe, updLe, wantLe, loopLe, putLe, logLe⟩ := h
+  obtain ⟨readOk, selOk, selLe, bestOk, connOk, sendLe, updLe, wantLe, loopLe, putLe, logLe⟩ := h
   have hm := heads_mono hs
   cases a <;> step_cases hs <;> grind [State.setW, State.setS, RunPc.lockW, RunPc.lockR]
 
 theorem invL_loopLe {v s a s'} (h : InvL s) (hs : step v s a = some s') :
     ∀ sw h todo, s'.run = .nLoop sw h todo → ∃ c, s'.best = some c ∧ h ≤ s'.heads.getD c 0 := by
   have hso := h.selOk
-  obtain ⟨readOk, selOk, connOk, sendLe, updLe, wantLe, loopLe, putLe, logLe⟩ := h
+  obtain ⟨readOk, selOk, selLe, bestOk, connOk, sendLe, updLe, wantLe, loopLe, putLe, logLe⟩ := h
   have hm := heads_mono hs
   cases a with
   | ubSet =>
@@ -179,25 +216,28 @@ theorem invL_loopLe {v s a s'} (h : InvL s) (hs : step v s a = some s') :
 
 theorem invL_putLe {v s a s'} (h : InvL s) (hs : step v s a = some s') :
     ∀ sw h h' w todo, s'.run = .nPut sw h h' w todo → ∃ c, s'.best = some c ∧ h ≤ s'.heads.getD c 0 := by
-  obtain ⟨readOk, selOk, connOk, sendLe, updLe, wantLe, loopLe, putLe, logLe⟩ := h
+  obtain ⟨readOk, selOk, selLe, bestOk, connOk, sendLe, updLe, wantLe, loopLe, putLe, logLe⟩ := h
   have hm := heads_mono hs
   cases a <;> step_cases hs <;> grind [State.setW, State.setS, RunPc.lockW, RunPc.lockR]
 
 theorem invL_logLe {v s a s'} (h : InvL s) (hs : step v s a = some s') :
     ∀ e ∈ s'.log, e.2.2 ≤ s'.heads.getD e.2.1 0 := by
-  obtain ⟨readOk, selOk, connOk, sendLe, updLe, wantLe, loopLe, putLe, logLe⟩ := h
+  obtain ⟨readOk, selOk, selLe, bestOk, connOk, sendLe, updLe, wantLe, loopLe, putLe, logLe⟩ := h
   have hm := heads_mono hs
   cases a <;> step_cases hs <;> grind [State.setW, State.setS, RunPc.lockW, RunPc.lockR]
 
 theorem invL_step {v s a s'} (h : InvL s) (hs : step v s a = some s') : InvL s' :=
-  ⟨invL_readOk h hs, invL_selOk h hs, invL_connOk h hs, invL_sendLe h hs, invL_updLe h hs, invL_wantLe h hs, invL_loopLe h hs, invL_putLe h hs,
+  ⟨invL_readOk h hs, invL_selOk h hs, invL_selLe h hs, invL_bestOk h hs, invL_connOk h hs, invL_sendLe h hs, invL_updLe h hs, invL_wantLe h hs, invL_loopLe h hs, invL_putLe h hs,
    invL_logLe h hs⟩
 
-theorem invL_init (heads best targets pubs st rtts) (hp : ∀ p ∈ pubs, p.1 < heads.length) :
+theorem invL_init (heads best targets pubs st rtts) (hp : ∀ p ∈ pubs, p.1 < heads.length)
+    (hb : ∀ c, best = some c → c < heads.length) :
     InvL (mkInit heads best targets pubs st rtts) := by
   constructor
   · intro i seqs hr; simp [mkInit] at hr
   · intro i seqs acc hr; simp [mkInit] at hr
+  · intro i seqs acc hr; simp [mkInit] at hr
+  · intro c hc; simpa [mkInit] using hb c (by simpa [mkInit] using hc)
   · intro j x h
     simp only [mkInit, List.getElem?_map, Option.map_eq_some_iff] at h
     obtain ⟨p, hp', rfl⟩ := h
@@ -214,7 +254,7 @@ theorem invL_init (heads best targets pubs st rtts) (hp : ∀ p ∈ pubs, p.1 < 
 
 theorem reachable_invL {v s} (h : Reachable v s) : InvL s := by
   induction h with
-  | init heads best targets pubs st rtts hp hh => exact invL_init heads best targets pubs st rtts (fun p h => (hp p h).1)
+  | init heads best targets pubs st rtts hp hh hb => exact invL_init heads best targets pubs st rtts (fun p h => (hp p h).1) hb
   | step _ hs ih => exact invL_step ih hs
 
 /-- a log entry is appended only for the connection that is best at that very step -/
@@ -260,7 +300,7 @@ theorem invE_init (heads best targets pubs st rtts) : InvE (mkInit heads best ta
 
 theorem reachable_invE {v s} (h : Reachable v s) : InvE s := by
   induction h with
-  | init heads best targets pubs st rtts hp hh => exact invE_init ..
+  | init heads best targets pubs st rtts hp hh hb => exact invE_init ..
   | step hr hs ih => exact invE_step (reachable_invA hr) ih hs
 
 /-! ### Group P: with a best connection present nobody dereferences nil -/
